@@ -232,6 +232,8 @@ pub fn program(rng: &mut Rng, profile: Profile) -> Generated {
                     // even when the value stored is what a read of never-used memory would have returned
                     "mem_input" if rng.chance(1, 4) => GExpr::Const(*rng.pick(&[0u128, 0, 1, 0xff00, 0x1_0000_0000][..]), W::Unl, 1),
                     "mem_writebit" if rng.chance(1, 3) => GExpr::Const(1, W::Unl, 0),
+                    // a constant enable that is not zero but whose lowest bit is: the one-bit wire is 0, the port is off
+                    "mem_writebit" | "mem_readbit" if rng.chance(1, 6) => GExpr::Const(*rng.pick(&[2u128, 4, 6, 0x10][..]), W::Unl, 0),
                     _ => if rng.chance(1, 2) { varying(rng, &mut sc, w, depth) } else { gen(rng, &mut sc, W::Bits(w), depth) },
                 };
                 stmts.push(Stmt::Assign(vec![name.to_string()], e));
